@@ -268,6 +268,32 @@ Example c16_ex_history_tags :
    ObsTag _ (Tag _ "AAAA" (Some 13%Z)); ObsTag _ (Tag _ "CC" (Some 15%Z)); ObsLoad _ (Ok VNull)].
 Proof. vm_compute. reflexivity. Qed.
 
+(* format by extension, and load() through a history of a .yml file: missing file, empty
+   document (-> {}), a top-level list (-> ValueError), a mapping *)
+Example c16_ex_format :
+  detect_format "Policy.YML" = FYaml /\ detect_format "p.yaml" = FYaml /\ detect_format "p.yaml.json" = FJson /\
+  detect_format "p.txt" = FJson /\ detect_format "pyaml" = FJson /\ detect_format "" = FJson.
+Proof. vm_compute. repeat split. Qed.
+Definition ex_yaml (b : bytes) : res value :=
+  if String.eqb b "" then Ok VNull
+  else if String.eqb b "- a" then Ok (VList [VStr "a"])
+  else if String.eqb b "rules: []" then Ok (VObj [("rules", VList [])])
+  else Raise "ScannerError".
+Example c16_ex_load :
+  map snd (run bytes id_h no_parse ex_yaml (fun _ => true) (mkCfg "p.yml" false false)
+             [OLoad; OWorld (WSet "" 1); OLoad; OWorld (WSet "- a" 2); OLoad; OWorld (WSet "rules: []" 3); OLoad;
+              OWorld (WSet "{" 4); OLoad]
+             [] (fresh bytes)) =
+  [ObsLoad _ (Raise "FileNotFoundError"); ObsLoad _ (Ok (VObj [])); ObsLoad _ (Raise "ValueError");
+   ObsLoad _ (Ok (VObj [("rules", VList [])])); ObsLoad _ (Raise "ScannerError")].
+Proof. vm_compute. reflexivity. Qed.
+
+(* an incoherent cache: the signature of the file, the hash of another content *)
+Example c16_ex_incoherent :
+  ~ coherent bytes id_h (mkCfg "p.json" false false) (mkSrc bytes (Some (4, 10%Z)) (Some "AAAA"))
+      [("p.json", mkFile "BBBB" 10)].
+Proof. unfold coherent. simpl. intros C. specialize (C eq_refl). discriminate. Qed.
+
 (* The hypothesis is needed: a same-size rewrite that keeps the mtime is not seen
    (the second tag is still that of "AAAA" while the file holds "BBBB") ... *)
 Example c16_stale_without_sig_change :
